@@ -369,6 +369,71 @@ CLAIMED = {
         technique="TLC computes the transition table from the real dispatcher + group bytecode (kernel cross-checked); "
                   "exhaustive BFS over frame histories on that table",
         design_ref="5/C22"),
+
+    "C05": dict(
+        category="model_checking",
+        text="Three views of every program of a corpus of 1 685 (quick) distinct generator-accepted programs - the "
+             "statement generators of C01, C03, C06 and C07, hash-variable, Dict update / lookup / Else, ktime, "
+             "prandom, temporaries, sub-program and per-CPU programs, and the library's own dispatcher and fast "
+             "sync groups with every bundled device: (1) BPF_PROG_LOAD by the running kernel's verifier, (2) "
+             "Verifier.tla, the acceptance rules the generator relies on (unwritten registers, r0 at exit, NULL "
+             "check after a lookup, packet access only inside a range proven against the packet end, stack "
+             "bounds / alignment / initialisation, context access, helper argument types, byte-swap width, "
+             "constant shifts and divisors, jump targets, pointer arithmetic) explored by TLC over ALL paths, (3) "
+             "one concrete run on the eBPF machine. A kernel rejection is a violation; the model decides alone "
+             "when bpf() is unavailable. The model and the kernel are calibrated in every run on deliberately "
+             "broken bytecode that both must reject.",
+        note="Kernel and model agreed on every program of the corpus (1 676 accepted and 9 rejected by both before "
+             "the repair of F33; all accepted after). The model keeps two portable rules this kernel has relaxed "
+             "and has no scalar range tracking: model-only rejections would be reported as imprecision, not judged. "
+             "The corpus is sampled, not all programs.",
+        technique="TLA+ type-state model of the verifier's rules (Verifier.tla) explored by TLC over all paths; real "
+                  "kernel verifier on the same bytecode; concrete runs on the eBPF machine",
+        design_ref="5/C05"),
+    "C08": dict(
+        category="model_checking",
+        text="Layout.tla (pairwise-disjoint byte ranges of exactly each variable's size inside the map) and Store.tla "
+             "(abstract value per variable; PyWrite / PyRead / ProgRun; x as decimals with five digits, tuples for "
+             "multi-element formats, one value per CPU for per-CPU maps). TLC enumerates declaration sets (up to 3 "
+             "variables over 7 formats, up to 6 over 3 formats, seeded sets of 4-6) spread over base class / "
+             "derived class incl. redeclared names / 0-2 sub-program instances; the real classes are built with "
+             "type(), positions and map size read from the real objects and judged by TLC. Histories of Python "
+             "writes, real emitted programs and Python reads run on the real kernel map (every program run "
+             "repeated on the eBPF machine and compared) and in lock-step on the machine alone; TLC validates "
+             "every history.",
+        note="Declaration sets bounded as stated; histories sampled with fixed seeds. Conversions between fixed-point "
+             "and integer variables belong to C01 / C02.",
+        technique="TLA+ specs Layout + Store; TLC-enumerated declaration sets on the real classes; real programs on "
+                  "kernel and eBPF machine; TLC trace validation",
+        design_ref="5/C08"),
+    "C09": dict(
+        category="model_checking",
+        text="Store.tla, hash part: every hash-map variable an independent 64-bit cell holding its declared default "
+             "after load; a Dict a finite map from key structure to value structure with capacity; Structure "
+             "layouts (Python data buffer versus the program's stack offsets) must denote the same byte positions. "
+             "Fixed-seed random variable sets, Structures with packed members of all sizes, and insert / lookup / "
+             "update / delete / pop / iteration sequences from both sides: program-side operations are real "
+             "emitted programs (update(), lookup() with Else, member access through the looked-up pointer, "
+             "variable get / set) run on the kernel and on the eBPF machine, Python-side operations the real "
+             "classes on the real kernel map (or a fake kernel); TLC validates the merged history.",
+        note="LRU Dicts are not compared (contents unspecified after updates). Out-of-range writes and concurrent "
+             "writers are not covered.",
+        technique="TLA+ spec Store (hash part) + Layout; real programs on kernel and eBPF machine; TLC trace validation",
+        design_ref="5/C09"),
+    "C10": dict(
+        category="model_checking",
+        text="BpfCalls.tla: a registry of created maps and, for every lookup / lookup-and-delete / update / delete / "
+             "get-next-key event, the obligation key buffer >= key size and value buffer >= value size (per-CPU: "
+             "value size rounded up to 8 times the number of POSSIBLE CPUs); model-checked exhaustively against a "
+             "kernel model that stays inside the buffers iff the obligation holds. Every bpf() call reaching the "
+             "library's single syscall wrapper is recorded with the measured lengths of the Python buffers behind "
+             "it while the whole user-space API is driven (array maps, per-CPU read(), hash variables of every "
+             "format, Dict set / get / pop / del / iteration) on fixed-seed randomly declared maps, on this host and "
+             "on simulated hosts with more possible than online CPUs; TLC validates the event list.",
+        note="Trusts the fake kernel's transfer sizes (taken from kernel/bpf/syscall.c) and the frame walk that finds "
+             "the buffers. mmap-ed array maps carry no obligation.",
+        technique="TLA+ spec BpfCalls + TLC exhaustive model check; TLC trace validation of recorded bpf() events",
+        design_ref="5/C10"),
 }
 NOT_YET = "not yet built in this round (planned in DESIGN.md section 5)"
 NOT_APPLICABLE = {}
